@@ -156,7 +156,7 @@ func execAlias(s *Sexp) string {
 func oracleAlias(op *Sexp, res string) []string { return lastAliasOracle }
 
 func runC11(r *Runner, g *Gen, tier string) string {
-	n := scale(tier, 3000, 150000)
+	n := scale(tier, 3000, 400000)
 	for i := 0; i < n; i++ {
 		cfg := g.pickCfg()
 		t := g.topType(3)
